@@ -169,6 +169,52 @@ void explore_ed_sweep(Ctx &ctx) {
     }
 }
 
+
+// ------------------------------------------------------------------ solved sums: the RESULT encoding is chosen first
+// (y with all-ones limbs in radix 2^51 / 2^25.5 / 2^64 and one limb perturbed, y just below p, tiny y), then operands are solved
+// for: Q = R* - P, so that add(P, Q) must return exactly the encoding R*.  Aims the final reduction / packing code at values that
+// random operands reach with probability ~2^-200.  The oracle is unchanged (exact model sum).
+void explore_solved_sums(Ctx &ctx) {
+    using namespace ref;
+    Rng r = ctx.rng("c07-solved");
+    U p = P25519();
+    std::vector<U> ys;
+    static const int B51[] = { 0, 51, 102, 153, 204, 255 }, B64[] = { 0, 64, 128, 192, 255 }, B26[] = { 0, 26, 51, 77, 102, 128, 153, 179, 204, 230, 255 };
+    auto add_radix = [&](const int *b, int n) {
+        for (int li = 0; li + 1 < n; li++) for (int rep = 0; rep < (ctx.thorough() ? 24 : 8); rep++) {
+            U d = u_low_bits(u_from_le(r.bytes(8)), b[li + 1] - b[li]); if (u_is_zero(d) || rep == 0) d = U(1);
+            U v = u_sub(u_add(p, U(r.below(19))), u_shl(d, b[li])); if (u_cmp(v, p) < 0) ys.push_back(v);
+        }
+    };
+    add_radix(B51, 6); add_radix(B64, 5); add_radix(B26, 11);
+    for (uint64_t j = 0; j <= 24; j++) { ys.push_back(U(j)); ys.push_back(u_sub(p, U(j + 1))); }
+    uint64_t idx = 0;
+    for (auto &y : ys) {
+        uint64_t rs = r.next();
+        if (!ctx.mine(idx++)) continue;
+        Rng rr(rs);
+        for (int sign = 0; sign < 2; sign++) {
+            Bytes enc = u_to_le(y, 32); if (sign) enc[31] |= 0x80;
+            Dec d = pt_decode_ex(enc);
+            if (!d.ok_strict()) { ctx.cls("solved-sum:candidate-not-on-curve"); continue; }
+            Pt P = pt_mul(sc_reduce(u_from_le(rr.bytes(40))), ED_B()), Q = pt_sub(d.p, P);
+            EdCase a{ E_ADD, pt_encode(P), pt_encode(Q), Bytes(), "solved", "solved", "" };
+            exec_case(ctx, a, run_ed, mix64(hash_bytes(enc.data(), 32), 11), true);
+            EdCase b{ E_SUB, pt_encode(d.p) == enc ? pt_encode(pt_add(d.p, P)) : pt_encode(P), pt_encode(P), Bytes(), "solved", "solved", "" };
+            exec_case(ctx, b, run_ed, mix64(hash_bytes(enc.data(), 32), 12), true);
+            ctx.cls("solved-sum:aimed");
+            // scalar multiplication landing exactly on R* (only possible for prime-order R*)
+            if (pt_in_prime_subgroup(d.p) && !pt_is_identity(d.p)) {
+                Bytes n = rr.bytes(32); n[31] &= 0x0f; n[0] |= 1; U nv = u_from_le(n);
+                Pt S = pt_mul(sc_inv(sc_reduce(nv)), d.p);
+                EdCase m{ E_MULT_NOCLAMP, pt_encode(S), Bytes(), n, "solved", "", "solved" };
+                exec_case(ctx, m, run_ed, mix64(hash_bytes(enc.data(), 32), 13), true);
+                ctx.cls("solved-scalarmult:aimed");
+            }
+        }
+    }
+}
+
 // ------------------------------------------------------------------ Ristretto255
 enum RiOp { R_VALID, R_ADD, R_SUB, R_MULT, R_BASE, R_FROM_HASH, NRIOP };
 const char *RON[] = { "is_valid_point", "add", "sub", "scalarmult", "scalarmult_base", "from_hash" };
@@ -366,5 +412,5 @@ bool replay(const KV &k, std::string &msg) {
 }  // namespace
 
 std::vector<Sub> vh_subs() {
-    return { { "ed_sweep", explore_ed_sweep, replay }, { "ed_points", explore_ed, replay }, { "ristretto", explore_ri, replay }, { "scalars", explore_sc, replay }, { "h2c", explore_h2c, replay }, { "h2c_oversize_dst", explore_h2c_oversize, replay } };
+    return { { "ed_sweep", explore_ed_sweep, replay }, { "ed_points", explore_ed, replay }, { "ed_solved_results", explore_solved_sums, replay }, { "ristretto", explore_ri, replay }, { "scalars", explore_sc, replay }, { "h2c", explore_h2c, replay }, { "h2c_oversize_dst", explore_h2c_oversize, replay } };
 }
